@@ -58,7 +58,7 @@ Init == /\ shape \in Shapes
         /\ phase = "prior" /\ locked = FALSE /\ known = FALSE
         /\ out = [class |-> "", leaks |-> FALSE] /\ fol = ""
 Prior == /\ phase = "prior"
-         /\ known' = (shape.prior \in {"created", "debit"} /\ ImsiLike(shape))
+         /\ known' = (shape.prior \in {"created", "debit", "nearfull"} /\ ImsiLike(shape))   \* "nearfull": a session whose record is almost full
          /\ phase' = "probe" /\ UNCHANGED <<shape, locked, out, fol>>
 Probe == /\ phase = "probe"
          /\ out' = Outcome(shape, known)
